@@ -14,17 +14,17 @@ inductive Kind
 deriving DecidableEq, Repr
 
 def urlOf : Kind → Str
-  | .prevote => "/settlus.oracle.MsgPrevote".toList
-  | .vote => "/settlus.oracle.MsgVote".toList
-  | .consent => "/settlus.oracle.MsgFeederDelegationConsent".toList
-  | .createTenant => "/settlus.settlement.MsgCreateTenant".toList
-  | .createTenantMc => "/settlus.settlement.MsgCreateTenantWithMintableContract".toList
-  | .deposit => "/settlus.settlement.MsgDepositToTreasury".toList
-  | .record => "/settlus.settlement.MsgRecord".toList
-  | .cancel => "/settlus.settlement.MsgCancel".toList
-  | .addAdmin => "/settlus.settlement.MsgAddTenantAdmin".toList
-  | .removeAdmin => "/settlus.settlement.MsgRemoveTenantAdmin".toList
-  | .setPeriod => "/settlus.settlement.MsgUpdateTenantPayoutPeriod".toList
+  | .prevote => "/settlus.oracle.v1alpha1.MsgPrevote".toList
+  | .vote => "/settlus.oracle.v1alpha1.MsgVote".toList
+  | .consent => "/settlus.oracle.v1alpha1.MsgFeederDelegationConsent".toList
+  | .createTenant => "/settlus.settlement.v1alpha1.MsgCreateTenant".toList
+  | .createTenantMc => "/settlus.settlement.v1alpha1.MsgCreateTenantWithMintableContract".toList
+  | .deposit => "/settlus.settlement.v1alpha1.MsgDepositToTreasury".toList
+  | .record => "/settlus.settlement.v1alpha1.MsgRecord".toList
+  | .cancel => "/settlus.settlement.v1alpha1.MsgCancel".toList
+  | .addAdmin => "/settlus.settlement.v1alpha1.MsgAddTenantAdmin".toList
+  | .removeAdmin => "/settlus.settlement.v1alpha1.MsgRemoveTenantAdmin".toList
+  | .setPeriod => "/settlus.settlement.v1alpha1.MsgUpdateTenantPayoutPeriod".toList
   | .send => "/cosmos.bank.v1beta1.MsgSend".toList
   | .exec => "/cosmos.authz.v1beta1.MsgExec".toList
   | .grant => "/cosmos.authz.v1beta1.MsgGrant".toList
